@@ -294,14 +294,26 @@ def dictGet {α} (key : α → Nat) (l : List α) (k : Nat) : Option α := l.rev
 def queryByGuids (src : Source) (ids : List Nat) : QR Result :=
   returnForIdQueries src (ids.filterMap (dictGet Child.guid (iterChildren src)))
 
-/-- adjacent pairs of the start-sorted variant list: `has_overlap` -/
-def adjOverlap : List GChild → Bool
-  | x :: y :: rest => overlapInt (x.start, x.stop) (y.start, y.stop) || adjOverlap (y :: rest)
+/-- `chunk_relative_location` of a member built directly on the parent: on a chunk the intersection with the
+    chunk window (relative to it), `none` = EmptyLocation -/
+def chunkRelLoc (par : Par) (g : GChild) : Option (Int × Int) :=
+  match par with
+  | .chunk cs seq =>
+      let ce := cs + seq.length
+      if overlapInt (cs, ce) (g.start, g.stop) then some (max g.start cs - cs, min g.stop ce - cs) else none
+  | _ => some (g.start, g.stop)
+
+/-- adjacent pairs of the start-sorted variant list: `chunk_relative_location.has_overlap` -/
+def adjOverlap (par : Par) : List GChild → Bool
+  | x :: y :: rest =>
+      (match chunkRelLoc par x, chunkRelLoc par y with
+       | some a, some b => overlapInt a b
+       | _, _ => false) || adjOverlap par (y :: rest)
   | _ => false
 
 /-- `X.query_by_guids(ids)` of a child: `None`, or a new child with the SAME guid holding the requested
     grandchildren in the order of the ids; a repeated id makes the constructor raise -/
-def childQueryByGuids (c : Child) (ids : List Nat) : QR (Option Child) :=
+def childQueryByGuids (par : Par) (c : Child) (ids : List Nat) : QR (Option Child) :=
   let txs := ids.filterMap (dictGet GChild.guid c.gcs)
   match hullOf (txs.map fun g => (g.start, g.stop)) with
   | none => pure none
@@ -311,7 +323,7 @@ def childQueryByGuids (c : Child) (ids : List Nat) : QR (Option Child) :=
       | .var =>
           -- sorted by start; adjacent `has_overlap` → LocationOverlapException (a variant overlaps its own copy)
           let sorted := txs.mergeSort (fun x y => decide (x.start ≤ y.start))
-          if adjOverlap sorted then throw (.doc .LocationOverlap)
+          if adjOverlap par sorted then throw (.doc .LocationOverlap)
           else if dup then throw (.doc .InvalidAnnotation)
           else pure (some { c with gcs := sorted, start := a, stop := b })
       | _ =>
@@ -330,7 +342,7 @@ def queryByIntervalGuids (src : Source) (kinds : List Kind) (ids : List Nat) : Q
   let kept ← mapQ (fun g =>
       match dictGet Child.guid (iterChildren src) g with
       | some c => (do
-          match (← childQueryByGuids c ids) with
+          match (← childQueryByGuids src.par c ids) with
           | some c' => pure c'
           | none => throw .typeError)                      -- `None.to_dict()`; unreachable: an owner has a hit
       | none => throw .typeError) ownerGuids
@@ -343,7 +355,7 @@ def queryByIdentifiers (src : Source) (ids : List (List Char)) : QR Result :=
 /-- rendering of `child.query_by_guids(ids)` on the source's own parent: the grandchildren are the SAME objects
     (not rebuilt), so their sequences are those of the source -/
 def childQueryResult (src : Source) (c : Child) (ids : List Nat) : QR (Option RChild) := do
-  match (← childQueryByGuids c ids) with
+  match (← childQueryByGuids src.par c ids) with
   | none => pure none
   | some c' => pure (some ⟨c'.guid, c'.kind, c'.start, c'.stop, c'.idents, c'.gcs.map (srcG src.par.toRPar)⟩)
 
